@@ -19,6 +19,10 @@ checks = {
    technique="exhaustive enumeration of sign/magnitude tables on the renderer's own discovered lattice, through the real renderers (explicit-state over cell configurations)",
    text="Through the real render.ToTriangles with the uniform and the octree marching-cubes renderers on lookup fields over the lattice each renderer itself samples (discovered by a probe render): every {-1,0,1}^8 table and all 256 sign configurations x every choice of <=2 special corners with magnitude 1/4 or 1e-13 of a free cell; all 4096 sign tables of a face-adjacent cell pair in the 3 orientations (plus ternary values on the shared face; {-1,0,1}^12 thorough); 2^18 sign tables of a 3x3x2 block (quick: a 2^16 / 2^14 prefix); 20 analytic scenes x 7 (17) resolutions x 3 boxes. Oracle: welded (1e-6 cell) directed-edge balance, no repeated vertex, positive signed volume, vertices within the cells adjacent to inside corners.",
    note="boundary corners positive so the surface is strictly inside the box; octree tables scaled so nothing is prunable (pruning is C07); closedness for arbitrary magnitudes only through the scenes"),
+ "C07": dict(engine="L", design="3/C07",
+   technique="exhaustive enumeration of exact voxel/pixel solids x positions x alignments on the discovered lattice; three-way multiset comparison against the unpruned render and the finest-cell reference",
+   text="All 255 unions of a 2x2x2 voxel block (3D octree) and all 511 unions of a 3x3 pixel block (2D quadtree), voxel size 1 and 2 cells, at every position of a 2^3 (3^3) / 3^2 (4^2) window of the renderer's own discovered lattice, with faces on lattice planes, 1e-5 cell either side of them, mid-cell and third-cell, at meshCells 4,5,8(,16) / 5,8,16(,32); plus analytic shapes (incl. discs of radius 1e-5..0.05 cell centred on corners shared by coarse squares) at 3-11 resolutions. Each is rendered through the real hierarchical renderer and compared bit-exactly as a multiset with (1) the same renderer on the 2^-10-scaled field (nothing prunable) and (2) the real per-cell step applied to every finest cell of the discovered lattice; (3) the sampled volume must cover the bounding box.",
+   note="solids are exact (never overestimating) by construction; lattice and corner coordinates are taken from a probe render, not recomputed"),
 }
 props = [json.loads(l) for l in open(os.path.join(V, "properties.jsonl"))]
 pending_reason = "check not built yet in this session (work in progress, see DESIGN.md section 3 for the planned bounded-exhaustive check)"
